@@ -309,22 +309,24 @@ func descVal(v any) string {
 // H is the per-execution harness state of a sequential (single-threaded)
 // node/flow scenario.
 type H struct {
-	root       *spec
-	store      *flyt.SharedStore
-	ctx        context.Context
-	answers    []answer
-	calls      []call
-	menu       func(h *H, c call) []answer // answers offered for this callback (index 0 = default)
-	onCall     func(h *H, c call)          // extra hook (cancellation injection etc.)
-	preCall    func(h *H, c call)          // runs before the reference comparison
-	nodes      map[*spec]flyt.Node
-	visits     map[*spec]int
-	diverged   bool // the run legitimately left the uncancelled reference (after a cancellation)
-	noRefCheck bool
-	sawCtx     bool
-	runNo      int
-	hist       []string
-	outcomeTag string
+	root           *spec
+	store          *flyt.SharedStore
+	ctx            context.Context
+	answers        []answer
+	calls          []call
+	menu           func(h *H, c call) []answer    // answers offered for this callback (index 0 = default)
+	onCall         func(h *H, c call)             // extra hook (cancellation injection etc.)
+	preCall        func(h *H, c call)             // runs before the reference comparison
+	allowDeviation func(h *H, exp, got call) bool // a callback that differs from the reference but is permitted: stop comparing
+	nodes          map[*spec]flyt.Node
+	visits         map[*spec]int
+	diverged       bool // the run legitimately left the uncancelled reference (after a cancellation)
+	noRefCheck     bool
+	sawCtx         bool
+	runNo          int
+	maxCalls       int
+	hist           []string
+	outcomeTag     string
 }
 
 func newH(root *spec) *H {
@@ -338,8 +340,12 @@ func (h *H) on(c call) answer {
 	}
 	c.visit = h.visits[c.node] - 1
 	h.calls = append(h.calls, c)
-	if len(h.calls) > 600 {
-		core.Problem("the run does not terminate: more than 600 callbacks (last: %s)", c)
+	limit := 600
+	if h.maxCalls > limit {
+		limit = h.maxCalls
+	}
+	if len(h.calls) > limit {
+		core.Problem("the run does not terminate: more than %d callbacks (last: %s)", limit, c)
 		panic("harness: runaway execution stopped")
 	}
 	core.Logf("call %s prep=%s exec=%s err=%v", c, descVal(c.prepVal), descVal(c.execVal), c.err)
@@ -350,6 +356,8 @@ func (h *H) on(c call) answer {
 		s, _, done := simulate(h.root, h.store, h.answers)
 		if done {
 			core.Problem("callback %s invoked although the reference run is already over (after %d callbacks)", c, len(h.answers))
+		} else if h.allowDeviation != nil && !sameCall(s.next, c) && h.allowDeviation(h, s.next, c) {
+			h.diverged = true
 		} else {
 			h.compare(s.next, c)
 		}
@@ -438,6 +446,13 @@ func (h *H) finish(action flyt.Action, err error) {
 func checkErrMatch(got, injected error) {
 	if !errors.Is(got, injected) {
 		core.Problem("returned error %q does not match the callback's error %q under errors.Is", got, injected)
+	}
+	var we *wrapErr
+	if errors.As(injected, &we) {
+		var g *wrapErr
+		if !errors.As(got, &g) || g != we {
+			core.Problem("returned error %q does not expose the callback's own wrapper (%T) under errors.As", got, we)
+		}
 	}
 	var ce *customErr
 	if errors.As(injected, &ce) {
@@ -743,4 +758,8 @@ func (h *H) nextRun() {
 	h.answers, h.calls = nil, nil
 	h.visits = map[*spec]int{}
 	h.runNo++
+}
+
+func sameCall(exp, got call) bool {
+	return exp.node == got.node && exp.ph == got.ph && exp.visit == got.visit && (exp.ph != pExec || exp.attempt == got.attempt)
 }
